@@ -41,6 +41,12 @@ def configs(tier, seed):
                 if d == 2:
                     T = 8 if K == 2 else 9
                 out.append({"name": "seq-%s-d%d-n%d-T%d" % (part, d, n, T), "algo": "SequOOL", "part": part, "d": d, "T": T, "params": {"n": n}, "cost": T * K})
+    from harness import c01
+    for c in c01.modeb_configs(tier, ["SequOOL"]):
+        out.append(dict(c, name="seq-" + c["name"]))
+    for P, n in ((16, 20), (30, 40)):
+        pre = {"P": P, "k": 3, "seed": 0, "peak": 0.3, "noise": 0.25}
+        out.append({"name": "seq-modeb-B-n%d-P%d+3" % (n, P), "algo": "SequOOL", "part": "B", "d": 1, "T": P + 3, "params": {"n": n}, "prefix": pre, "cost": P})
     out.append({"name": "twin-seq", "algo": "SequOOL", "part": "B", "d": 1, "T": 3, "params": {"n": 10}, "twin": True, "expect_fail": "twin"})
     return out
 
